@@ -135,7 +135,47 @@ nni_pipe_close(nni_pipe *p)
 		return; // We already did a close.
 	}
 
+	// The teardown runs on the reaper thread.  It must not overlap with
+	// the work done while the pipe is being started (that would leave a
+	// pipe that is already torn down registered with the protocol or the
+	// statistics), so in that case the start path queues it when done.
+	nni_mtx_lock(&pipes_lk);
+	if (p->p_starting) {
+		p->p_reap_wait = true;
+		nni_mtx_unlock(&pipes_lk);
+		return;
+	}
+	nni_mtx_unlock(&pipes_lk);
+
 	nni_reap(&pipe_reap_list, p);
+}
+
+// nni_pipe_start_begin and nni_pipe_start_end bracket the starting of a
+// pipe; a close that arrives in between only takes effect at the end.
+void
+nni_pipe_start_begin(nni_pipe *p)
+{
+	nni_pipe_hold(p);
+	nni_mtx_lock(&pipes_lk);
+	p->p_starting = true;
+	nni_mtx_unlock(&pipes_lk);
+}
+
+void
+nni_pipe_start_end(nni_pipe *p)
+{
+	bool reap;
+
+	nni_mtx_lock(&pipes_lk);
+	p->p_starting  = false;
+	reap           = p->p_reap_wait;
+	p->p_reap_wait = false;
+	nni_mtx_unlock(&pipes_lk);
+
+	if (reap) {
+		nni_reap(&pipe_reap_list, p);
+	}
+	nni_pipe_rele(p);
 }
 
 bool
